@@ -67,3 +67,12 @@ chk("C09",
     "history pattern clear -> re-use and printed as KNOWN-FINDING; any other silent wrong gradient is a VIOLATION.",
     "Trusted: reference differentiator, NumPy twin. Histories beyond the bound and more than three graphs are outside.",
     "exhaustive history enumeration + symbolic execution + SMT equivalence against recorded forward term", "DESIGN §3 C09")
+chk("C06",
+    "Programs are the enumerated input: bases (6,), (2,3), (3,3); every legal chain of <=2 (thorough: + strided length-3) view ops out of "
+    "15 (slices, strides, integer index, newaxis, T, reshape, swapaxes, moveaxis, expand_dims, squeeze, diagonal einsum); every ordered "
+    "selection of <=3 readers among base and views, i.e. every order in which gradient contributions arrive; optional second pass on the "
+    "base. Per program (symbolic data): v.grad is available iff b.grad is, its terms equal the view chain re-applied to b.grad (z3), "
+    "np.shares_memory(v.grad, b.grad), a write-through probe with fresh symbols, no aliasing between gradients of non-sharing tensors, "
+    "and gradients read None once the base is re-used.",
+    "Trusted: NumPy's view functions re-applied by the harness to the gradient array. Views of views across epochs are outside.",
+    "exhaustive program/schedule enumeration + symbolic execution + SMT term equality and aliasing probes", "DESIGN §3 C06")
